@@ -167,6 +167,14 @@ def model_obs(case, raws, io):
         mo["worst_inversion_units"] = worst
         if case["enum"] == "cd":
             mo["worst_inversion_log"] = worst * case["params"].get("precision", 1e-5)
+            # the bucket queues of constant-delay search have k+1 cells over the cost spread M of a
+            # non-terminal: programs whose costs fall into one cell (width M/k) come out together,
+            # and this repeats at every nesting level
+            cs = [c[0] for _, rs in io.get("costs", []) for _, c in rs]
+            spread = (max(cs) - min(cs)) if cs else 0
+            depth = max([P.prog_depth(p) for p in io["out"]] + [1])
+            mo["cd_rule_cost_spread_units"] = spread
+            mo["cd_cell_bound_units"] = int(depth * max(spread, 1) / max(case["params"].get("k", 10), 1)) + 2
     return mo
 
 
@@ -192,7 +200,7 @@ def describe(case, mo):
 
 def classify(case, io, mo):
     if case["enum"] == "cd" and mo is not None and mo["sorted"] == 0 and mo["costs_ok"] == 1 \
-            and mo.get("worst_inversion_log", 1.0) <= 0.25:
+            and mo.get("worst_inversion_units", 10 ** 18) <= mo.get("cd_cell_bound_units", 0):
         return "c03_cd_order_inversions"
     if C02.hs_ttcfg_crash(case, io):
         return "c03_heap_search_ttcfg_order"
